@@ -247,8 +247,16 @@ func ReadFile(name string) ([]byte, error) {
 			return nil, err
 		}
 	}
+	if b, ok := VirtualFiles[name]; ok {
+		// the simulated disk: no system call (a goroutine inside a blocking system call may hand its
+		// processor to another thread, which lets the Go scheduler reorder the goroutines of a run)
+		return append([]byte(nil), b...), nil
+	}
 	return ioutil.ReadFile(name)
 }
+
+// VirtualFiles is the simulated disk: files the simulator has written, by path.
+var VirtualFiles = map[string][]byte{}
 
 // ReadFault, when set by the simulator, is asked before every file read; a non-nil error is what the read
 // returns (an unreadable or vanished file, a disk error).
